@@ -289,6 +289,24 @@ func (e *Engine) frameOf(f *ssa.Function) []frameEntry {
 		e.frames[f] = nil
 		return nil
 	}
+	if c := e.contractFor(f); c != nil && c.HasAssigns && !c.AssignsAny && (len(f.Blocks) == 0 || c.Assumed) {
+		// frame taken from the (assumed) contract: plain parameter names map to argument positions
+		pn, _, _, _ := sigNames(f.Signature)
+		var fr []frameEntry
+		for _, cl := range c.Assigns {
+			idx := -1
+			if cl.N.Op == "id" {
+				for i, n := range pn {
+					if n == cl.N.Tok || (i == 0 && f.Signature.Recv() != nil && cl.N.Tok == "recv") {
+						idx = i
+					}
+				}
+			}
+			fr = append(fr, frameEntry{allComps(), idx})
+		}
+		e.frames[f] = fr
+		return fr
+	}
 	if len(f.Blocks) == 0 {
 		if isPureExternal(f) {
 			e.frames[f] = nil
